@@ -156,7 +156,7 @@ class C19(Prop):
         m = re.search(r"pending=\[([^\]]*)\]", summ)
         if m:
             for e in m.group(1).split(","):
-                if re.match(r"^(conn\.(au|ab|ob|ou|dgr)|w\d+s?\.\w+)$", e):
+                if re.match(r"^(conn\.(WT|au|ab|ob|ou|dgr)|w\d+s?\.\w+)$", e):
                     out.append(e + "=pending")
         # streams the server opened (ids ≡ 1 mod 4 bidi, ≡ 3 mod 4 uni beyond the three setup streams) and
         # streams accepted for the session: bytes written, FIN / RESET / STOP_SENDING issued by h3
@@ -810,8 +810,14 @@ class C19(Prop):
         w = line.split()
         ops = w[3:]
         out = []
+        # the session itself stays: the peer's SETTINGS, the CONNECT request and its stream, conn.WT
+        keep = {"o2", "conn.WT"}
+        for o in ops:
+            m = re.match(r"^s(\d+):" + CONNECT + "$", o)
+            if m:
+                keep |= {o, "o" + m.group(1)}
         for i in range(len(ops)):
-            if ops[i] in ("o2", "conn.WT") or ops[i].startswith("s2:"):
+            if ops[i] in keep or ops[i].startswith("s2:"):
                 continue
             out.append(" ".join(w[:3] + ops[:i] + ops[i + 1:]))
         return out
